@@ -4,7 +4,7 @@ from __future__ import annotations
 import itertools
 
 from . import gen
-from .common import Batch, Result, canon_json, conv_tree, fl, load_corpus, raw_parse, render_doc, rng_for
+from .common import REPO, Batch, Result, canon_json, conv_tree, fl, load_corpus, raw_parse, render_doc, rng_for
 
 
 def params_canon_py(mp):
@@ -147,13 +147,42 @@ def run(ctx):
 
             batch.add(["chains", [True], wire, missing, []], on_nf)
 
+    # small scope, exhaustively: every document of up to three statements over a vocabulary of related names; every mother, the
+    # empty stable set and every single daughter of its lines as stable set
+    from . import decsmall
+
+    def acyclic(p, m, path=()):
+        if m in path:
+            return False
+        try:
+            modes = p.list_decay_modes(m)
+        except Exception:
+            return True
+        return all(acyclic(p, d, path + (m,)) for fs in modes for d in fs)
+
+    for doc in decsmall.docs(3, (seed % 16, 16) if tier == "quick" else (0, 1)):
+        text = render_doc(doc)
+        try:
+            p = DecFileParser.from_string(text)
+            p.parse()
+        except Exception:
+            res.skipped += 1
+            continue
+        for m in dict.fromkeys(p.list_decay_mother_names()):
+            if not acyclic(p, m):
+                res.skipped += 1
+                continue
+            ds = list(dict.fromkeys(d for fs in p.list_decay_modes(m) for d in fs))[:4]
+            for st in [[]] + [[d] for d in ds]:
+                one(p, doc, text, m, st, "small-scope")
+        res.count("small_scope_documents")
     # shipped files
     import glob
     import os
 
-    files = sorted(glob.glob("/repo/tests/data/*.dec"))
+    files = sorted(glob.glob(REPO + "/tests/data/*.dec"))
     if tier == "thorough":
-        files += ["/repo/src/decaylanguage/data/DECAY_LHCB.DEC"]
+        files += [REPO + "/src/decaylanguage/data/DECAY_LHCB.DEC"]
     for f in files:
         try:
             p = DecFileParser(f)
